@@ -884,6 +884,19 @@ impl<'a> Message<'a> {
             });
         }
 
+        if mlength + MessageHeader::LENGTH < data.len() {
+            // bytes after the advertised end of the message are not part of it
+            warn!(
+                "malformed advertised size {:?} is smaller than the data size {:?}",
+                mlength + 20,
+                data.len()
+            );
+            return Err(StunParseError::TooLarge {
+                expected: mlength + MessageHeader::LENGTH,
+                actual: data.len(),
+            });
+        }
+
         let mut data_offset = MessageHeader::LENGTH;
         let mut data = &data[MessageHeader::LENGTH..];
         let ending_attributes = [
